@@ -231,12 +231,12 @@ fn dispatch(v: &Value) -> Option<Bad> {
 fn main() {
     let ctx = Ctx::new("C18", "release");
     if let Some(v) = ctx.replay_case() {
-        guard::enter(&v.to_string());
+        let _guard_scope = guard::scoped(&v.to_string());
         ctx.finish_replay(catch(|| dispatch(&v)).unwrap_or_else(|p| Some(("panic".into(), p))).map(|e| format!("{}: {}", e.0, e.1)));
     }
     guard::set_hang_secs(300);
     let thorough = ctx.thorough();
-    let depths: Vec<usize> = if thorough { (1..=16).chain([32, 50]).collect() } else { (1..=8).collect() };
+    let depths: Vec<usize> = if thorough { (1..=16).chain([17, 20, 25, 31, 32, 33, 50, 63, 64, 65, 100, 127, 128, 129, 200, 256]).collect() } else { (1..=8).chain([12, 16, 17, 25, 32, 33, 50, 64, 100, 128]).collect() };
     let mut cases: Vec<Value> = Vec::new();
     for fmt in ["f64", "[f32;2]", "[i16;1]"] {
         for &d in &depths {
@@ -293,7 +293,7 @@ fn main() {
     }
     let evals = AtomicU64::new(0);
     cases.par_iter().for_each(|case| {
-        guard::enter(&case.to_string());
+        let _guard_scope = guard::scoped(&case.to_string());
         evals.fetch_add(1, Relaxed);
         match catch(|| dispatch(case)) {
             Ok(None) => ctx.observe(common::fnv_str(&case.to_string())),
@@ -307,7 +307,7 @@ fn main() {
     ctx.set("depths", json!(depths));
     ctx.set("exhaustive", json!(true));
     ctx.set("exhaustive_scope", json!("the stated finite grid of depths, fractional positions, priming levels and histories over a 5-letter alphabet; other depths / positions / amplitudes are not explored"));
-    ctx.rule("frames f64, [f32;2], [i16;1]; depths 1..=8 (thorough 1..=16, 32, 50); (a) ratio 1 through Converter over an instrumented source: every source over {-1,-1/2,0,1/2,1} of length <=4 (thorough 5) plus impulse/step/ramp of length 3*depth: output k == 0 for k<depth and source[k-depth] after, within 1e-12 x peak, one pull per output; (b) linearity at x in k/16 (quick k/8) and at every priming level 0..=2*depth: impulse responses out(e_j) measured on the real code, every history over the alphabet of length <=3 (thorough 5): |out(h) - sum h_j out(e_j)| within (8 depth + 64) ulp x peak (ints: (2 depth + 2) LSB per term), out(c h) == c out(h) for c in {-1,1/2,2}; (c) every output finite; (d) constant input, depth>=4, >=2*depth frames pushed, 256 positions: within 1%; (e) reset after every history of length <=3 then every continuation of length 3 == fresh interpolator; distinct by case");
+    ctx.rule("frames f64, [f32;2], [i16;1]; depths 1..=8 and scale probes 12,16,17,25,32,33,50,64,100,128 (thorough 1..=16 and 17,20,25,31,32,33,50,63,64,65,100,127,128,129,200,256; depths above 8 with every 7th source, histories of length 2 and priming levels 0, depth, 2*depth only); (a) ratio 1 through Converter over an instrumented source: every source over {-1,-1/2,0,1/2,1} of length <=4 (thorough 5) plus impulse/step/ramp of length 3*depth: output k == 0 for k<depth and source[k-depth] after, within 1e-12 x peak, one pull per output; (b) linearity at x in k/16 (quick k/8) and at every priming level 0..=2*depth: impulse responses out(e_j) measured on the real code, every history over the alphabet of length <=3 (thorough 5): |out(h) - sum h_j out(e_j)| within (8 depth + 64) ulp x peak (ints: (2 depth + 2) LSB per term), out(c h) == c out(h) for c in {-1,1/2,2}; (c) every output finite; (d) constant input, depth>=4, >=2*depth frames pushed, 256 positions: within 1%; (e) reset after every history of length <=3 then every continuation of length 3 == fresh interpolator; distinct by case");
     ctx.sample(json!({"sys":"linear","fmt":"[i16;1]","depth":3,"pre":2,"l":3,"x":0.4375}));
     ctx.sample(json!({"sys":"transparent","fmt":"f64","depth":5,"src":[1.0,-0.5,0.0,0.5]}));
     ctx.assume("libm sin/cos inside the kernel are not modelled: linearity is checked against impulse responses measured on the same build");
